@@ -65,6 +65,7 @@ theorem JInv.congr {c d : Cfg} (h : JInv c) (h1 : evK d = evK c) (h2 : d.joins =
   · rw [h2]; exact ht
   · rw [h2]; exact ho
   · rw [h1, h2]; exact h.jne
+  · rw [h2]; exact h.live
 
 theorem mem_heldE {js : List Join} {j : Join} {q : Nat × Nat} (hj : j ∈ js) (hq : q ∈ j.heldEv) : q.2 ∈ heldE js := by
   simp only [heldE, List.mem_flatMap]
@@ -98,6 +99,7 @@ theorem JInv.replace {c d : Cfg} (h : JInv c) {x y : Nat × EvKind} (hx : x ∈ 
   · intro h0
     have := (hmem y).mpr (Or.inr rfl)
     rw [h0] at this; cases this
+  · rw [hj]; exact h.live
 
 theorem evK_split (l1 l2 : List QEv) (m : QEv) :
     (l1 ++ m :: l2).map (fun e => (e.id, e.kind)) = l1.map (fun e => (e.id, e.kind)) ++ (m.id, m.kind) :: l2.map (fun e => (e.id, e.kind)) := by
